@@ -420,7 +420,7 @@ def components_from_metric(metric, tol=None):
   if not np.issubdtype(metric.dtype, np.floating):
     # (the default tolerance below is relative to the floating-point type)
     metric = metric.astype(float)
-  if not np.allclose(metric, metric.T):
+  if not np.allclose(metric, metric.T, atol=1e-8 * np.abs(metric).max()):
     raise ValueError("The input metric should be symmetric.")
   # If M is diagonal, we will just return the elementwise square root:
   if np.array_equal(metric, np.diag(np.diag(metric))):
@@ -691,7 +691,7 @@ def _initialize_metric_mahalanobis(input, init='identity', random_state=None,
                        .format(init.shape, matrix_name, n_features))
 
     # Assert that the matrix is symmetric
-    if not np.allclose(init, init.T):
+    if not np.allclose(init, init.T, atol=1e-8 * np.abs(init).max()):
       raise ValueError("`{}` is not symmetric.".format(matrix_name))
 
   elif init not in ['identity', 'covariance', 'random']:
